@@ -14,12 +14,13 @@ open HW.Engine
 def engPool (addr : String) (i : Nat) : Option Key :=
   match i with
   | 0 => some ⟨addr, "s/a"⟩ | 1 => some ⟨addr, "s/b"⟩ | 2 => some ⟨addr, "s/c"⟩ | 3 => some ⟨"other:1", "s/x"⟩
+  | 5 => some ⟨"other:1", "s/a"⟩      -- foreign address, id of a live local actor
   | _ => none
 
 def engIdx (addr : String) (k : Option Key) : String :=
   match k with
   | none => "-"
-  | some k => match (List.range 4).find? (fun i => engPool addr i = some k) with
+  | some k => match (List.range 6).find? (fun i => engPool addr i = some k) with
     | some i => toString i
     | none => "?"
 
